@@ -322,6 +322,8 @@ def l2_backend(name, group, aad, sizes, quick=True, paserk=True, pke=True, publi
         for n, ln in (("c10_pke_key_wrong_len_32", "32 = a local key"), ("c10_pke_key_wrong_len_33", "33 = a key id"), ("c10_pke_key_wrong_len_short", "secret length - 1")):
             out["C08"].append(H(group, P + n, q if n.endswith("_32") else "t", timeout=900, mem=14, mode="full", replay="none",
                                 doc="%s: the PKE public/secret key decoders (same text headers as public/secret) reject byte strings of another length (%s)" % (name, ln)))
+        out["C04"].append(H(group, P + "c04_key_decode_empty", q, timeout=600, mem=10, mode="full", replay="playback",
+                            doc="%s: the empty byte string offered to the local, public and secret key decoders is rejected without a panic (an empty key text such as `k3.public.` parses as text)" % name))
         for n in ("c13_id_transcript_lid", "c13_id_transcript_sid", "c13_id_transcript_pid"):
             out["C13"].append(H(group, P + n, q if n.endswith("lid") else "t", timeout=600, mem=14, mode="full", replay="none",
                                 doc="%s hash_key: the digest input is exactly paserk header ‖ %s ‖ key text and the id is its first 33 bytes" % (name, n[-3:])))
@@ -596,17 +598,17 @@ _vs = l2_backend("v4-sodium", "v4sodium", True, {"secret_len": 64, "pke_len": 96
 # quick tiers: measured costs (14 parallel jobs): v4/v2 token harness ~4 min, v3 token harness ~10-14 min (real ctr crate),
 # PKE ~10 min, PBKW >10 min / >16 GB -> PBKW round-trip and tamper harnesses are thorough-only
 _PBKW_T = ["pw_roundtrip", "pw_tamper", "pw_default_must"]
-_demote(_v3, ["c10_pke_key_wrong_len_32", "local_roundtrip_m3_f2", "public_roundtrip_m3_f2", "local_tamper_payload_bit", "public_tamper_payload_bit", "local_rng_fail", "public_rng_fail", "pie_rng_fail", "pw_rng_fail", "nonce_is_draw", "pie_tamper_w0", "local_unseal_arbitrary_min"])
+_demote(_v3, ["c04_key_decode_empty", "c10_pke_key_wrong_len_32", "local_roundtrip_m3_f2", "public_roundtrip_m3_f2", "local_tamper_payload_bit", "public_tamper_payload_bit", "local_rng_fail", "public_rng_fail", "pie_rng_fail", "pw_rng_fail", "nonce_is_draw", "pie_tamper_w0", "local_unseal_arbitrary_min"])
 _x1 = {"C16": [H("v1", "proofs::pw_rng_fail_closed_at0", "t", timeout=900, mode="lean", replay="native:rng_fail", schema=[], replay_args={"backend": "v1", "op": "pw", "at": 0}, doc="v1 PBKW: failure of the salt draw only => Err"),
                H("v1", "proofs::pw_rng_fail_closed_at1", "t", timeout=900, mode="lean", replay="native:rng_fail", schema=[], replay_args={"backend": "v1", "op": "pw", "at": 1}, doc="v1 PBKW: failure of the nonce draw only => Err")],
        "C13": [H("v1", "proofs::c13_id_transcript_lid", "t", timeout=600, mem=14, mode="full", replay="none", doc="v1 hash_key: the SHA-384 input is exactly k1 ‖ .lid. ‖ key text; id = first 33 bytes")]}
 _v1 = l2_backend("v1", "v1", False, {"secret_len": 48, "pke_len": 592, "nonce": 32, "tag": 48, "sig": 256, "pie_over": 80, "pw_over": 100}, pke=False, public=False, extra=_x1)
 _demote(_v1, [])
-_demote(_va, ["public_seal_total", "local_tamper_payload_bit", "c04_ffi_ledger", "c04_public_key_codec", "local_unseal_arbitrary_min"])
-_demote(_vs, ["local_roundtrip_m3_f2", "local_tamper_payload_bit", "public_tamper_payload_bit", "local_unseal_arbitrary_min"])
-_demote(_v2, ["local_roundtrip_m3_f2", "public_roundtrip_m3_f2", "local_tamper_payload_bit", "aad_refused", "local_tamper_w8", "local_rng_fail", "pie_roundtrip_local",
+_demote(_va, ["c04_key_decode_empty", "public_seal_total", "local_tamper_payload_bit", "c04_ffi_ledger", "c04_public_key_codec", "local_unseal_arbitrary_min"])
+_demote(_vs, ["c04_key_decode_empty", "local_roundtrip_m3_f2", "local_tamper_payload_bit", "public_tamper_payload_bit", "local_unseal_arbitrary_min"])
+_demote(_v2, ["c04_key_decode_empty", "local_roundtrip_m3_f2", "public_roundtrip_m3_f2", "local_tamper_payload_bit", "aad_refused", "local_tamper_w8", "local_rng_fail", "pie_roundtrip_local",
               "local_unseal_arbitrary_min"])
-_demote(_v4, ["c10_pke_key_wrong_len_32", "c08_local_key_codec_n32", "c08_signing_key_codec_public", "c08_signing_key_codec_rederive", "c13_id_transcript_lid"] + ["local_roundtrip_m3_f2", "public_roundtrip_m3_f2", "local_tamper_payload_bit", "local_tamper_w8", "local_tamper_w10", "local_tamper_w6", "local_tamper_w14",
+_demote(_v4, ["c04_key_decode_empty", "c10_pke_key_wrong_len_32", "c08_local_key_codec_n32", "c08_signing_key_codec_public", "c08_signing_key_codec_rederive", "c13_id_transcript_lid"] + ["local_roundtrip_m3_f2", "public_roundtrip_m3_f2", "local_tamper_payload_bit", "local_tamper_w8", "local_tamper_w10", "local_tamper_w6", "local_tamper_w14",
               "public_tamper_payload_bit", "public_tamper_w8", "public_tamper_w12", "rng_fail", "nonce_is_draw", "pie_roundtrip_local", "pie_tamper_w0", "pie_tamper_w1",
               "pke_roundtrip", "pke_tamper_w0", "local_unseal_arbitrary_below", "local_unseal_arbitrary_min", "public_unseal_arbitrary_below", "pie_unwrap_arbitrary_below",
               "c04_pw_unwrap_to_kdf"])
@@ -643,7 +645,7 @@ for _h in PROPS["C04"].harnesses + PROPS["C09"].harnesses:
 # ------------------------------------------------------------------------------------------------
 PROPS["C03"] = Prop(
     "C03", [
-        H("v3", "proofs::c03_public_ecdsa_twin_accepted", "qt", timeout=1500, mem=14, mode="lean", replay="none", fs=4,
+        H("v3", "proofs::c03_public_ecdsa_twin_accepted", "qt", timeout=1500, mem=14, mode="lean", replay="native:cross_v3_public", schema=[], replay_args={"loops": 64}, fs=4,
           doc="paseto-v3 public: the (r, n-s) twin of a valid signature is a specification-conforming signature of the same message and must be accepted (cross-backend: paseto-v3-aws-lc emits high-S signatures about half of the time)"),
         H("v3", "proofs::c03_local_ctr_counter_128bit", "qt", timeout=1800, mem=14, mode="lean", replay="native:ctr_pbkw", schema=[], replay_args={},
           doc="paseto-v3 local: with key, nonce (hence derived IV) and a 17-byte message symbolic, the two blocks fed to AES are IV and IV+1 mod 2^128 (full-width big-endian counter, as OpenSSL/aws-lc)"),
